@@ -97,7 +97,7 @@ def _pt_init_cases():
             yield 'types=%d,symmetric=%s' % (n, sym), build
 
 
-@contract('pyPRISM/core/PairTable.py::PairTable.__getitem__', props=['C14'])
+@contract('pyPRISM/core/PairTable.py::PairTable.__getitem__', props=['C14', 'C04'])
 def PairTable_getitem(self, index):
     t1, t2 = index
     return self.values[t1][t2]
@@ -113,7 +113,7 @@ def _pt_get_cases():
                 yield 'types=%d,%s-%s' % (n, a, b), build
 
 
-@contract('pyPRISM/core/PairTable.py::PairTable.__setitem__', props=['C14', 'C16'])
+@contract('pyPRISM/core/PairTable.py::PairTable.__setitem__', props=['C14', 'C16', 'C04'])
 def PairTable_setitem(self, index, value):
     types1, types2 = index
     K1 = self.listify(types1)
@@ -164,13 +164,13 @@ def _pairs(self, full, diagonal):
     return out
 
 
-@contract('pyPRISM/core/PairTable.py::PairTable.__iter__', props=['C14'])
+@contract('pyPRISM/core/PairTable.py::PairTable.__iter__', props=['C14', 'C04'])
 def PairTable_iter(self):
     for (i, j) in _pairs(self, True, True):
         yield (i, j), (self.types[i], self.types[j]), self.values[self.types[i]][self.types[j]]
 
 
-@contract('pyPRISM/core/PairTable.py::PairTable.iterpairs', props=['C14'])
+@contract('pyPRISM/core/PairTable.py::PairTable.iterpairs', props=['C14', 'C04'])
 def PairTable_iterpairs(self, full=False, diagonal=True):
     for (i, j) in _pairs(self, full, diagonal):
         yield (i, j), (self.types[i], self.types[j]), self.values[self.types[i]][self.types[j]]
